@@ -51,7 +51,7 @@ Proof.
 Qed.
 
 (* ---------------------------------------------------------------------- *)
-(* (2) cfg_opt_setnstr (on top of cfg_opt_getval / cfg_addval)             *)
+(* (2) cfg_opt_setnstr (strdup first, then cfg_opt_getval / cfg_addval)    *)
 (* ---------------------------------------------------------------------- *)
 Lemma C18_setnstr_lemma : forall h g k value index,
   Sep h (cells_gopt g) ->
@@ -60,8 +60,7 @@ Lemma C18_setnstr_lemma : forall h g k value index,
   exists h' g' out,
     run (cfg_opt_setnstr (rec_of_gopt g) value index) h k = Ok (rec_of_gopt g', out) (mkst h' (k - N)) /\
     HeapOK h (cells_gopt g) h' (cells_gopt g') /\
-    (hits k N -> out = Failed /\
-       abs_opt g' = if (nv <=? index) && (k =? 3) then add_value (abs_opt g) None else abs_opt g) /\
+    (hits k N -> out = Failed /\ abs_opt g' = abs_opt g) /\
     (~ hits k N -> out = Done tt /\
        abs_opt g' = if index <? nv then set_value (abs_opt g) index value
                     else add_value (abs_opt g) value).
@@ -82,7 +81,7 @@ Proof.
   - split; [intros; contradiction|]. intros _. split; [reflexivity|].
     rewrite (Habs _ Hv). destruct (index <? _); reflexivity.
   - split; [|intros; contradiction]. intros _. split; [reflexivity|].
-    rewrite (Habs _ Hv). destruct (_ && _); reflexivity.
+    apply abs_opt_eq; assumption.
 Qed.
 
 (* ---------------------------------------------------------------------- *)
